@@ -22,6 +22,7 @@ func main() {
 	flag.BoolVar(&cfg.Pipeline, "pipeline", false, "stream `pipe`: in-fragment scenarios (harness/c02 generator) in several arrival orders")
 	flag.IntVar(&cfg.Orders, "orders", 4, "arrival orders per scenario (stream pipe)")
 	flag.IntVar(&cfg.Only, "only", -1, "stream pipe: emit only scenario I, with its objects")
+	layers := flag.Bool("pipelayers", false, "stream `pipe`, layered families refs / tls / base (references, endpoints, TLS, statuses per arrival order)")
 	dump := flag.Int("dump", -1, "print the objects of scenario I as JSON and exit")
 	mkcorpus := flag.String("mkcorpus", "", "write the hand-built regression scenarios into this directory and exit")
 	replay := flag.String("replay", "", "run one scenario from a JSON array of objects")
@@ -33,6 +34,10 @@ func main() {
 				os.Exit(2)
 			}
 		}
+		return
+	}
+	if *layers {
+		c14.RunPipeLayers(cfg, os.Stdout)
 		return
 	}
 	if cfg.Pipeline {
